@@ -140,8 +140,11 @@ def occurs(it, hay, needle):
 
 
 def replace_all(it, hay, old, new, *count):
+    limit = None
     if count and count[0] not in (-1, None):
-        raise OutsideSubset("str.replace with a count")
+        if not isinstance(count[0], int):
+            raise OutsideSubset("str.replace with a symbolic count")
+        limit = count[0]
     if isinstance(hay, str) and isinstance(old, str) and isinstance(new, str):
         return hay.replace(old, new)
     for _round in range(12):
@@ -150,11 +153,16 @@ def replace_all(it, hay, old, new, *count):
             raise OutsideSubset("replace of the empty string")
         restart = False
         out, i = [], 0
+        done = 0
         while i < len(H):
+            if limit is not None and done >= limit:
+                out.extend(H[i:])              # str.replace(old, new, count): only the first `count` occurrences
+                break
             r = match_at(it, H, i, O)
             if r is True:
                 out.extend(stream(new))
                 i += len(O)
+                done += 1
                 continue
             if r is None:
                 # some atom of the needle faces a different atom / character of the haystack
@@ -183,6 +191,8 @@ def replace_all(it, hay, old, new, *count):
                         a_item, o_item = (y, x) if y[0] == 'a' else (x, y)
                         if o_item[0] == 'c' and not atom_may_hold(a_item[1], o_item[1]):
                             break      # cannot match here
+                        if o_item[0] == 'c' and o_item[1] in DIGITS and a_item[1].first_not_digit:
+                            break      # both items START at this position: a name that does not start with a digit
                         if o_item[0] == 'n' and (a_item[1].first_not_digit or DIGITS <= a_item[1].excludes):
                             break      # a name that does not start with a digit cannot be (the tail of) a numeral
                         raise OutsideSubset("replace(): %r against %r is not determined" % (x, y))
